@@ -1,0 +1,38 @@
+//go:build verif
+// +build verif
+
+package calendar
+
+// Verification hooks (build tag verif): trace points at the linearization
+// points of the year cache. With the tag off these compile to empty calls.
+
+// VerifHook, when set, receives one event per trace point. It is called by the
+// goroutine that is at that point; events "acquired" .. "released" are emitted
+// while the year-cache lock is held. A hook may block: the "gate" event is
+// emitted before the lock is requested, so a scheduler can order acquisitions.
+var VerifHook func(ev string, year int)
+
+func verifTrace(ev string, year int) {
+	if h := VerifHook; h != nil {
+		h(ev, year)
+	}
+}
+
+// VerifLockFree reports whether the year-cache lock is currently free.
+func VerifLockFree() bool {
+	if lock.TryLock() {
+		lock.Unlock()
+		return true
+	}
+	return false
+}
+
+// VerifCachedYear returns the year held by the one-slot cache (0 and false when empty).
+func VerifCachedYear() (int, bool) {
+	lock.Lock()
+	defer lock.Unlock()
+	if CACHE_YEAR == nil {
+		return 0, false
+	}
+	return CACHE_YEAR.year, true
+}
